@@ -284,12 +284,37 @@ async fn stream(w: &Arc<World>, p: &Plan) {
     let via_transport_w = p.via_transport;
     let wmode = mode(p);
     let w4 = w.clone();
+    let early = (p.fill_seed >> 20) % 4;
     let writer = async move {
         if via_transport_w {
             // FramedTransport::write (what Connection::send_raw uses): its framer starts in handshake mode
             let (_dw, dummy_r, _c) = pipe(&w4, 0, EndCfg::default(), EndCfg::default(), "dummy-r");
             let s = edp_client::verif::TcpStream::from_parts(Box::new(dummy_r), Box::new(we));
             let mut t = edp_client::transport::FramedTransport::new(Duration::from_secs(600));
+            // writes refused for want of a stream - before the first connect, or after a close - put nothing
+            // on the stream the transport is given afterwards
+            match early {
+                1 => {
+                    if t.write(b"too early").await.is_ok() {
+                        return Err("FramedTransport::write without a stream returned Ok".to_string());
+                    }
+                    w4.stat("probe.c05.write_refused_before_connect");
+                }
+                2 => {
+                    let (dw0, dr0, _c0) = pipe(&w4, 0, EndCfg::default(), EndCfg::default(), "dummy-0");
+                    let (_dw1, dr1, _c1) = pipe(&w4, 0, EndCfg::default(), EndCfg::default(), "dummy-1");
+                    t.connect(edp_client::verif::TcpStream::from_parts(Box::new(dr1), Box::new(dw0)));
+                    t.set_frame_mode(wmode);
+                    let _ = t.write(b"first stream").await;
+                    t.close();
+                    drop(dr0);
+                    if t.write(b"after close").await.is_ok() {
+                        return Err("FramedTransport::write after close() returned Ok".to_string());
+                    }
+                    w4.stat("probe.c05.write_refused_after_close");
+                }
+                _ => {}
+            }
             t.connect(s);
             t.set_frame_mode(wmode);
             for m in &msgs2 {
